@@ -7,6 +7,9 @@ CHECKS = {
  'C01': dict(tech='TLA+ ideal-crypto decision model (Groth16Protocol.tla) checked by TLC; every behaviour replayed on real Setup/Prove/Verify of 7 curves',
              text='TLC enumerates all circuit-shape x edit-sequence behaviours (<=2 edits) and checks the transcribed verifier step list against the property; each behaviour is replayed on the real Groth16 code of every curve and the real verdict compared with the specified one.',
              note='Ideal-cryptography rule for pairings/PoK; adversaries outside the edit alphabet and numeric correctness of pairings are outside the model (observed only via accept/reject).', ref='6 C01'),
+ 'C03': dict(tech='TLA+ configuration-space spec (Completeness.tla) enumerated by TLC and replayed on the real provers/verifiers under a watchdog; TLA+ model of the prover goroutine pipeline (ProverPipeline.tla) extracted from prove.go and model-checked for deadlock',
+             text='TLC enumerates every configuration (backend, 30 circuits, valid/invalid witness classes, prover/verifier hash options, statistical ZK) with its required outcome; each is replayed on real Setup/Prove/Verify of the curves with a hang watchdog and a check for prover goroutines left blocked. The channel/goroutine structure of the PLONK prover is extracted from the sources and TLC explores all interleavings and failure sets for deadlock and double close.',
+             note='Circuits are the shape/corpus families, not arbitrary circuits; a deadlock of the extracted model is a lead that becomes a verdict through the invalid-witness replay (a real hang).', ref='6 C03'),
  'C04': dict(tech='TLA+ reference semantics (ApiSemantics.tla) + program generator (ProgGen.tla) in TLC; every program compiled by both real builders and solved for every assignment over F_47, compared with the TLC-cross-checked oracle',
              text='TLC enumerates all single-call programs and seeded random programs of 2-4 calls over frontend.API with their documented meaning on probe assignments; each is compiled by the real R1CS and SCS builders over the 47-element field and solved for all 47^k assignments of the inputs it uses, under compression-threshold variants and over the other supported fields on corner assignments; success/failure and every intermediate value must match the reference semantics.',
              note='The Go port of ApiSemantics used beyond the probe assignments is checked against TLC on 64 probes of every program each run; programs longer than 4 calls and hints/PLONK-specific gates are outside this generator.', ref='6 C04'),
